@@ -4,7 +4,7 @@ from __future__ import annotations
 import ast
 
 from ..cfg import NORMAL, ALL, walk_local
-from ..facts import (runs_only_when, cfg_of, call_name, calls_in, targets_of, guard_atoms,
+from ..facts import (built_sequence, runs_only_when, cfg_of, call_name, calls_in, targets_of, guard_atoms,
                      is_attr, is_name, enclosing, local_assigns, kwarg,
                      const_value, strip_await, resolve_local, bind_args)
 from ..loader import txt, AnchorError
@@ -60,6 +60,9 @@ def check(ctx) -> None:
     r79(ctx)
     r710(ctx)
     r711(ctx)
+    r712(ctx)
+    r713(ctx)
+    r714(ctx)
 
 
 def r71(ctx) -> None:
@@ -687,3 +690,195 @@ def r711(ctx) -> None:
             R.ok(f, f.node, f'BaseLoadedMessage.{nm} contains '
                  f'{sorted(set(props.values()))}',
                  'every read of the signalling property is under a handler')
+
+
+RESP_FETCH = 'pymap/parsing/response/fetch.py'
+
+
+def _nonempty_guard(cfg, n, atom: str) -> bool:
+    """runs_only_when(.., atom, True), but a test that only compares the
+    value with None does not count: an empty sequence passes it."""
+    if not runs_only_when(cfg, n, atom, True):
+        return False
+    for t in cfg.nodes:
+        if t.kind != 'test' or getattr(t.stmt, 'test', None) is None:
+            continue
+        if not (cfg.controlled_by(n, t, 't') or cfg.controlled_by(n, t, 'f')):
+            continue
+        for c in ast.walk(t.stmt.test):
+            if isinstance(c, ast.Compare) and txt(c.left) == atom and \
+                    isinstance(c.ops[0], (ast.Is, ast.IsNot)) and \
+                    const_value(c.comparators[0]) == (True, None):
+                return False
+    return True
+
+
+def r712(ctx) -> None:
+    """RFC 3501 section 9 has no empty list in ENVELOPE / BODYSTRUCTURE:
+    env-to = "(" 1*address ")" / nil, body-fld-param = "(" string SP string
+    *(SP string SP string) ")" / nil.  A parenthesised list built from a
+    sequence of run-time length is therefore written only when that sequence
+    is non-empty (NIL otherwise)."""
+    R = ctx.rule('R7.12', 'variable-length lists of ENVELOPE/BODYSTRUCTURE '
+                 'are written only when non-empty', 2)
+    m = ctx.proj.module(RESP_FETCH)
+    n = 0
+    for f in m.funcs.values():
+        cfg = None
+        for c in calls_in(f.node, 'List'):
+            if not c.args:
+                continue
+            a = c.args[0]
+            if isinstance(a, (ast.List, ast.Tuple)):
+                continue                      # fixed number of fields
+            # the sequences the list is drawn from
+            srcs = set()
+            work = [a]
+            seen = 0
+            while work and seen < 12:
+                e = work.pop()
+                seen += 1
+                if isinstance(e, (ast.ListComp, ast.GeneratorExp)):
+                    for g in e.generators:
+                        it = g.iter
+                        while isinstance(it, ast.Call) and isinstance(
+                                it.func, ast.Attribute) and it.func.attr in (
+                                    'items', 'values', 'keys'):
+                            it = it.func.value
+                        srcs.add(txt(it))
+                        work.append(it)
+                elif isinstance(e, ast.Call):
+                    work += list(e.args)
+                elif isinstance(e, ast.Name):
+                    srcs.add(e.id)
+                    work += [v for v in resolve_local(f, e)
+                             if v is not None and v is not e]
+                elif isinstance(e, ast.Attribute):
+                    srcs.add(txt(e))
+            n += 1
+            cfg = cfg or cfg_of(f)
+            nodes = cfg.node_containing(c)
+            ok = bool(nodes) and all(any(_nonempty_guard(cfg, nd, s_)
+                                         for s_ in srcs) for nd in nodes)
+            R.check(ok, f, c, f'{f.qualname}: `{txt(c)[:46]}` only when its '
+                    f'source is non-empty',
+                    f'`{txt(c)[:60]}` is written for a sequence that can be '
+                    f'empty (drawn from {sorted(srcs)}; no truth test on it '
+                    f'controls this statement): a header that is present '
+                    f'but holds no address — `To: undisclosed-recipients:;` '
+                    f'— is written as `()`, and RFC 3501 has only "(" '
+                    f'1*address ")" / nil in that position',
+                    f'under a truth test on one of {sorted(srcs)}')
+    if n < 2:
+        raise AnchorError(f'{RESP_FETCH}: only {n} variable-length List() '
+                          f'construction(s) found (2 confirmed by hand)')
+
+
+def r713(ctx) -> None:
+    """RFC 3501 section 9: body-fld-dsp = "(" string SP body-fld-param ")" /
+    nil.  The disposition position of BODYSTRUCTURE extension data never
+    holds a plain string."""
+    R = ctx.rule('R7.13', 'BODYSTRUCTURE disposition is a (type params) list '
+                 'or NIL', 4)
+    m = ctx.proj.module(RESP_FETCH)
+    n = 0
+    for f in m.funcs.values():
+        for lst in calls_in(f.node, 'List'):
+            if not lst.args or not isinstance(lst.args[0], (ast.List,
+                                                            ast.Tuple)):
+                continue
+            if len(lst.args[0].elts) <= 2:
+                continue      # the (type params) pair itself, not a body
+            for el in lst.args[0].elts:
+                if not any(isinstance(x, ast.Attribute)
+                           and x.attr == 'content_disposition'
+                           for x in ast.walk(el)):
+                    continue
+                n += 1
+                key = f'{f.qualname}: disposition field'
+                if isinstance(el, ast.Call) and txt(el.func) in (
+                        'String.build', 'QuotedString', 'LiteralString',
+                        'String'):
+                    R.fail(f, el, key,
+                           f'`{txt(el)}` writes the Content-Disposition '
+                           f'header as ONE string (`"attachment; '
+                           f'filename=\\"x\\""`): the grammar has only "(" '
+                           f'string SP body-fld-param ")" / nil there, so '
+                           f'FETCH BODYSTRUCTURE of any message with an '
+                           f'attachment does not parse under RFC 3501')
+                    continue
+                cls = m.classes.get(call_name(el)) if isinstance(
+                    el, ast.Call) else None
+                v = cls.own_method('_value') if cls is not None else None
+                if v is None:
+                    R.undecided(f, el, key, f'`{txt(el)}` is not a writer '
+                                f'class of this module with a _value')
+                    continue
+                shapes = []
+                for r in walk_local(v.node):
+                    if not isinstance(r, ast.Return) or r.value is None:
+                        continue
+                    rv = r.value
+                    if isinstance(rv, ast.Call) and call_name(rv) == 'Nil':
+                        shapes.append('nil')
+                    elif isinstance(rv, ast.Call) and \
+                            call_name(rv) == 'List' and rv.args and \
+                            isinstance(rv.args[0], (ast.List, ast.Tuple)) \
+                            and len(rv.args[0].elts) == 2 and \
+                            txt(rv.args[0].elts[0]).startswith(
+                                'String.build(') and \
+                            call_name(rv.args[0].elts[1]) == '_ParamsList':
+                        shapes.append('list')
+                    else:
+                        shapes.append('other:' + txt(rv)[:40])
+                R.check(bool(shapes) and set(shapes) <= {'nil', 'list'}, f,
+                        el, key, f'{cls.name}._value returns {shapes}: not '
+                        f'only NIL / (string params)',
+                        f'{cls.name}: {sorted(set(shapes))}')
+    if n < 4:
+        raise AnchorError(f'{RESP_FETCH}: only {n} disposition field(s) in '
+                          f'List displays (4 confirmed by hand)')
+
+
+def r714(ctx) -> None:
+    """RFC 3501 section 9: body-type-mpart = 1*body SP media-subtype.  The
+    multipart writer concatenates its parts and appends the subtype, so with
+    zero parts it writes `( "mixed")`.  Every construction of it is therefore
+    under a test that the part list is non-empty."""
+    R = ctx.rule('R7.14', 'a multipart BODYSTRUCTURE is built only from at '
+                 'least one part', 1)
+    n = 0
+    for f in ctx.proj.all_funcs('pymap/'):
+        if f.rel.startswith(('pymap/admin/', 'pymap/backend/redis/')):
+            continue
+        cs = list(calls_in(f.node, 'MultipartBodyStructure'))
+        if not cs:
+            continue
+        cfg = cfg_of(f)
+        for c in cs:
+            n += 1
+            parts = c.args[-1] if c.args else None
+            atoms = set()
+            for v in ([parts] if parts is not None else []) + [
+                    x for x in (resolve_local(f, parts)
+                                if parts is not None else []) if x is not None]:
+                atoms.add(txt(v))
+                for b in built_sequence(f, v) or []:
+                    it = txt(b['iter'])
+                    atoms.add(it)
+                    if it.endswith('.nested'):
+                        atoms.add(it[:-len('.nested')] + '.has_nested')
+            nodes = cfg.node_containing(c)
+            ok = bool(nodes) and all(any(runs_only_when(cfg, nd, a, True)
+                                         for a in atoms) for nd in nodes)
+            R.check(ok, f, c, f'{f.qualname}: MultipartBodyStructure only '
+                    f'with parts',
+                    f'`{txt(c)[:50]}...` is built without a test that the '
+                    f'part list ({sorted(atoms)}) is non-empty: a message '
+                    f'that declares multipart/mixed but has no boundary '
+                    f'line has no parts, and its BODYSTRUCTURE is written '
+                    f'as `( "mixed")`, which RFC 3501 (1*body SP '
+                    f'media-subtype) does not have',
+                    f'under a truth test on one of {sorted(atoms)}')
+    if n < 1:
+        raise AnchorError('no construction of MultipartBodyStructure found')
